@@ -503,7 +503,8 @@ def c03(sc, req, path):
             yield refute('limit_prices_respected', [m, z3.Not(z3.And(xn * ad >= an * xd, xn * bd <= bn * xd))])
         elif path.kind in ('err', 'panic') and spec['nfunds'] == 0 and a['cls'] != 'Pending':
             canonical = z3.And(f_uuid_ok(req['ask_id']), f_uuid_hyph(req['ask_id']) == req['ask_id'], f_uuid_ok(req['bid_id']), f_uuid_hyph(req['bid_id']) == req['bid_id'])
-            fees_payable = z3.BoolVal(True) if (not b['hasfee'] or sc.cfgf('bid_fee_info').variant == 'Some') else z3.BoolVal(False)
+            # the configured fees are payable: no fee on the bid, a fee account to pay it to, or nothing left of the fee to be due
+            fees_payable = z3.BoolVal(True) if (not b['hasfee'] or sc.cfgf('bid_fee_info').variant == 'Some') else (b['rem_f'] == 0)
             legal = [m, in_list(req['sender'], execs), canonical, price != EMPTY, fees_payable] + defs + [E]
             yield refute('eligible_match_is_carried_out', legal, outcome=path.kind, detail=path.detail, cls=a['cls'], bidfee=b['hasfee'])
 
@@ -536,6 +537,9 @@ def c09(sc, req, path):
             if a['cls'] == 'Pending':
                 continue
             cs, v = match_defs(sc, req, a, b)
+            X, D = fresh_str('X'), fresh_str('D')
+            r1, r2, wit, wdefs = fee_witness(path, b, v)
+            yield refute('fees_deducted_and_routed_exactly', [m] + cs + wdefs + [z3.Or(z3.Not(wit), paid(trs, X, D) != match_spec(sc, req, a, b, v, X, D, r1, r2))], cls=a['cls'], bidfee=b['hasfee'])
             av = attr_value(path, 'ask_fee')
             bv = attr_value(path, 'bid_fee')
             if av is not None and numstr_arg(av) is not None:
@@ -627,8 +631,8 @@ def c17(sc, req, path):
             yield refute('match_size_reported', [m, (szn != req['size']) if szn is not None else z3.BoolVal(True)])
             if pr is not None and z3.is_app(pr) and pr.decl().name() == 'decstr':
                 yield refute('match_price_reported_numerically', [m, pr.arg(0) * req['pd'] != req['pn'] * pr.arg(1)])
-            elif pr is not None and z3.is_app(pr) and pr.decl().name() == 'deccanon':
-                src = pr.arg(0)          # the canonical rendering of a parsed decimal text has that text's value
+            elif pr is not None and isinstance(pr, z3.ExprRef) and pr.sort() == StrS:
+                src = pr.arg(0) if z3.is_app(pr) and pr.decl().name() == 'deccanon' else pr     # canonical rendering of a parsed text has that text's value
                 yield refute('match_price_reported_numerically', [m, z3.Not(z3.And(f_dec_ok(src), f_dec_n(src) * req['pd'] == req['pn'] * f_dec_d(src)))])
             else:
                 yield refute('match_price_reported_numerically', [m])
